@@ -512,4 +512,313 @@ theorem mid_spec (n sl sh W D Qup qh qn0 Qh r3h : Nat) (hn : n = sl + sh) (hsh :
     have : Qh - 1 + 1 = Qh := by omega
     rw [this]; omega
 
+/-! ## the saturating exits -/
+
+theorem lex_ge (a b P : Nat) (hP : 0 < P) : (a / P > b / P ∨ (a / P = b / P ∧ a % P ≥ b % P)) ↔ b ≤ a := by
+  have ha := Nat.div_add_mod a P
+  have hb := Nat.div_add_mod b P
+  have ha' := Nat.mod_lt a hP
+  have hb' := Nat.mod_lt b hP
+  constructor
+  · rintro (h | ⟨h1, h2⟩)
+    · have : P * (b / P + 1) ≤ P * (a / P) := Nat.mul_le_mul_left _ h
+      have e : P * (b / P + 1) = P * (b / P) + P := by ring
+      omega
+    · rw [h1] at ha; omega
+  · intro h
+    rcases Nat.lt_trichotomy (a / P) (b / P) with h1 | h1 | h1
+    · exfalso
+      have : P * (a / P + 1) ≤ P * (b / P) := Nat.mul_le_mul_left _ h1
+      have e : P * (a / P + 1) = P * (a / P) + P := by ring
+      omega
+    · right; refine ⟨h1, ?_⟩; rw [h1] at ha; omega
+    · left; exact h1
+
+/-- __divappr_helper on a window X (its high part u·B³ not seen) and a divisor Dk of k+1 limbs: the three limbs are the
+    truncated remainder of the all-ones quotient -/
+theorem sat_eq (k X Dk u t : Nat) (hk : 1 ≤ k) (hDk : Dk < B ^ (k + 1)) (hX : X / B < B ^ (k + 1))
+    (hid : X + Dk / B ^ (k - 1) + sumd Dk (k - 1) + u * B ^ 3 = B * Dk + t) (ht : t < B ^ 3) :
+    helper3 k (X % B) (X / B) Dk = t ∧ X + u * B ^ 3 = tS Dk (B ^ k - 1) k + t := by
+  have hB := B_pos
+  have hdm := Nat.div_add_mod X B
+  refine ⟨helper3_spec k (X % B) (X / B) Dk u t hk (Nat.mod_lt _ hB) hX hDk (by omega) ht, ?_⟩
+  obtain ⟨j, rfl⟩ : ∃ j, k = j + 1 := ⟨k - 1, by omega⟩
+  have := tS_sat j Dk
+  rw [Nat.add_sub_cancel] at hid
+  omega
+
+/-- what a sub-call (leaf or recursion) on m quotient limbs guarantees; dn = the caller's divisor length -/
+def CutSpec (m dn Nsub D : Nat) (r : Res) : Prop :=
+  r.ok = true ∧ r.q < B ^ m ∧ r.wl ≤ 1 ∧
+  Nsub / B ^ (dn - (m + 1)) < (r.q + 1) * (D / B ^ (dn - (m + 1))) ∧
+  Nsub / B ^ (dn - (m + 1)) / B ^ (m - 1) = tS (D / B ^ (dn - (m + 1))) r.q m + r.r3
+
+/-- the recursive calls keep `CutSpec` (induction hypothesis) -/
+def RecOK (C n dn D : Nat) (recur : Nat → Nat → Nat → Nat → Res) : Prop :=
+  ∀ m Nsub, C ≤ m → m < n → Nsub < B ^ (dn + m) → Nsub / B ^ (dn - (m + 1)) / B ^ m < D / B ^ (dn - (m + 1)) →
+    CutSpec m dn Nsub D (recur (dn + m) dn Nsub D)
+
+theorem sub_spec (C n dn D m Nsub : Nat) (recur : Nat → Nat → Nat → Nat → Res) (hrec : RecOK C n dn D recur)
+    (hdn : dn = n + 1) (hm : 1 ≤ m) (hmn : m < n) (hD : D < B ^ dn) (hnorm : B ^ dn ≤ 2 * D) (hsize : 2 * dn + 2 ≤ B)
+    (hN : Nsub < B ^ (dn + m)) (hpre : Nsub / B ^ (dn - (m + 1)) / B ^ m < D / B ^ (dn - (m + 1))) :
+    CutSpec m dn Nsub D (if m < C then sbLeaf (dn + m) dn Nsub D else recur (dn + m) dn Nsub D) := by
+  by_cases h : m < C
+  · rw [if_pos h]
+    obtain ⟨h1, h2, h3, h4, h5⟩ := SbDivQ.sbLeaf_spec m dn Nsub D hm (by omega) hN hD hnorm hsize hpre
+    exact ⟨h1, h2, by omega, h4, h5⟩
+  · rw [if_neg h]
+    exact hrec m Nsub (by omega) hmn hN hpre
+
+theorem W_bounds (n W D : Nat) (hD : D < B ^ (n + 1)) (hW : W < D * B ^ n) : W < B ^ (2 * n + 1) := by
+  have : D * B ^ n ≤ B ^ (n + 1) * B ^ n := Nat.mul_le_mul_right _ hD.le
+  have e : B ^ (n + 1) * B ^ n = B ^ (2 * n + 1) := by rw [← pow_add]; congr 1; omega
+  omega
+
+/-- dc_divappr_q.c:96-104 -/
+theorem hiPart_spec (C n dn W D sl sh : Nat) (recur : Nat → Nat → Nat → Nat → Res) (hrec : RecOK C n dn D recur)
+    (hdn : dn = n + 1) (hn : n = sl + sh) (hsh : 1 ≤ sh) (hsl : 1 ≤ sl) (hD : D < B ^ (n + 1))
+    (hnorm : B ^ (n + 1) ≤ 2 * D) (hW : W < D * B ^ n) (hsz : 2 * (n + 2) ≤ B) :
+    (hiPart C sbLeaf recur n dn W D sl sh).2.2.1 = true ∧ (hiPart C sbLeaf recur n dn W D sl sh).2.2.2 ≤ 1 ∧
+    (hiPart C sbLeaf recur n dn W D sl sh).1 < B ^ sh ∧
+    W / B ^ (n + sl - 1) = tS (D / B ^ sl) (hiPart C sbLeaf recur n dn W D sl sh).1 sh
+      + (hiPart C sbLeaf recur n dn W D sl sh).2.1 ∧
+    W < ((hiPart C sbLeaf recur n dn W D sl sh).1 + 1) * B ^ sl * D := by
+  have hB := B_pos
+  have hPs := Bpow_pos sl
+  have hPh := Bpow_pos sh
+  have hDc : D / B ^ sl < B ^ (sh + 1) := by
+    rw [Nat.div_lt_iff_lt_mul hPs, ← pow_add]
+    have : sh + 1 + sl = n + 1 := by omega
+    rw [this]; exact hD
+  have hDlt := lt_mul_div_succ' D _ hPs
+  unfold hiPart
+  by_cases hc : W / B ^ (n + sl) ≥ D / B ^ sl
+  · rw [if_pos hc]
+    simp only []
+    have eX : W / B ^ (n + sl - 1) / B = W / B ^ (n + sl) := by
+      rw [div_pow_succ']; congr 2; omega
+    have hXlt : W / B ^ (n + sl - 1) < (D / B ^ sl + 1) * B := by
+      rw [Nat.div_lt_iff_lt_mul (Bpow_pos _)]
+      have e : (D / B ^ sl + 1) * B * B ^ (n + sl - 1) = B ^ sl * (D / B ^ sl + 1) * B ^ n := by
+        have : B ^ (n + sl - 1) * B = B ^ sl * B ^ n := by rw [← pow_succ, ← pow_add]; congr 1; omega
+        calc (D / B ^ sl + 1) * B * B ^ (n + sl - 1) = (D / B ^ sl + 1) * (B ^ (n + sl - 1) * B) := by ring
+          _ = (D / B ^ sl + 1) * (B ^ sl * B ^ n) := by rw [this]
+          _ = B ^ sl * (D / B ^ sl + 1) * B ^ n := by ring
+      rw [e]
+      have : D * B ^ n < B ^ sl * (D / B ^ sl + 1) * B ^ n := Nat.mul_lt_mul_of_pos_right hDlt (Bpow_pos n)
+      omega
+    have hXge : B * (D / B ^ sl) ≤ W / B ^ (n + sl - 1) := by
+      have h1 := Nat.div_add_mod (W / B ^ (n + sl - 1)) B
+      rw [eX] at h1
+      have : B * (D / B ^ sl) ≤ B * (W / B ^ (n + sl)) := Nat.mul_le_mul_left _ hc
+      omega
+    have hF : D / B ^ sl / B ^ (sh - 1) < B * B := by
+      rw [Nat.div_lt_iff_lt_mul (Bpow_pos _)]
+      have : B * B * B ^ (sh - 1) = B ^ (sh + 1) := by
+        rw [show sh + 1 = 1 + 1 + (sh - 1) by omega, pow_add, pow_add, pow_one]
+      rw [this]; exact hDc
+    have hS := sumd_le (sh - 1) (D / B ^ sl)
+    have hshB : (sh - 1) * B + 2 * B ≤ B * B := by
+      calc (sh - 1) * B + 2 * B = (sh - 1 + 2) * B := by ring
+        _ ≤ B * B := Nat.mul_le_mul_right _ (by omega)
+    have hB3 : B * B * 2 ≤ B ^ 3 := by
+      rw [B3']; exact Nat.mul_le_mul_left _ (by rw [B_eq]; omega)
+    have e1 : (D / B ^ sl + 1) * B = B * (D / B ^ sl) + B := by ring
+    obtain ⟨e, he⟩ : ∃ e, W / B ^ (n + sl - 1) = B * (D / B ^ sl) + e := ⟨W / B ^ (n + sl - 1) - B * (D / B ^ sl), by omega⟩
+    have he1 : e < B := by omega
+    have ht : W / B ^ (n + sl - 1) + D / B ^ sl / B ^ (sh - 1) + sumd (D / B ^ sl) (sh - 1) + 0 * B ^ 3
+        = B * (D / B ^ sl) + (e + D / B ^ sl / B ^ (sh - 1) + sumd (D / B ^ sl) (sh - 1)) := by omega
+    have htlt : e + D / B ^ sl / B ^ (sh - 1) + sumd (D / B ^ sl) (sh - 1) < B ^ 3 := by omega
+    have hXB : W / B ^ (n + sl - 1) / B < B ^ (sh + 1) := by
+      rw [Nat.div_lt_iff_lt_mul hB]
+      have : (D / B ^ sl + 1) * B ≤ B ^ (sh + 1) * B := Nat.mul_le_mul_right _ hDc
+      omega
+    obtain ⟨s1, s2⟩ := sat_eq sh (W / B ^ (n + sl - 1)) (D / B ^ sl) 0 _ hsh hDc hXB ht htlt
+    rw [eX] at s1
+    rw [s1]
+    refine ⟨trivial, Nat.zero_le _, by omega, by omega, ?_⟩
+    rw [Nat.sub_add_cancel hPh]
+    calc W < D * B ^ n := hW
+      _ = B ^ sh * B ^ sl * D := by rw [hn, pow_add]; ring
+  · rw [if_neg hc]
+    simp only []
+    have hNs : W / B ^ sl < B ^ (dn + sh) := by
+      rw [Nat.div_lt_iff_lt_mul hPs, ← pow_add]
+      have := W_bounds n W D hD hW
+      have e : dn + sh + sl = 2 * n + 1 := by omega
+      rw [e]; exact this
+    have es : dn - (sh + 1) = sl := by omega
+    have hpre : W / B ^ sl / B ^ (dn - (sh + 1)) / B ^ sh < D / B ^ (dn - (sh + 1)) := by
+      rw [es, div_pow_add, div_pow_add]
+      have : sl + (sl + sh) = n + sl := by omega
+      rw [this]; omega
+    obtain ⟨c1, c2, c3, c4, c5⟩ := sub_spec C n dn D sh (W / B ^ sl) recur hrec hdn hsh (by omega)
+      (by rw [hdn]; exact hD) (by rw [hdn]; exact hnorm) (by omega) hNs hpre
+    rw [es] at c4 c5
+    rw [div_pow_add] at c4
+    rw [div_pow_add, div_pow_add] at c5
+    have e5 : sl + (sl + (sh - 1)) = n + sl - 1 := by omega
+    rw [e5] at c5
+    refine ⟨c1, c3, c2, c5, ?_⟩
+    have h1 := lt_mul_div_succ' W (B ^ (sl + sl)) (Bpow_pos _)
+    have h2 : B ^ sl * (D / B ^ sl) ≤ D := Nat.mul_div_le _ _
+    generalize (if sh < C then sbLeaf (dn + sh) dn (W / B ^ sl) D else recur (dn + sh) dn (W / B ^ sl) D).q = q at *
+    have h3 : B ^ (sl + sl) * (W / B ^ (sl + sl) + 1) ≤ B ^ (sl + sl) * ((q + 1) * (D / B ^ sl)) :=
+      Nat.mul_le_mul_left _ c4
+    have h4 : (q + 1) * B ^ sl * (B ^ sl * (D / B ^ sl)) ≤ (q + 1) * B ^ sl * D := Nat.mul_le_mul_left _ h2
+    calc W < B ^ (sl + sl) * (W / B ^ (sl + sl) + 1) := h1
+      _ ≤ B ^ (sl + sl) * ((q + 1) * (D / B ^ sl)) := h3
+      _ = (q + 1) * B ^ sl * (B ^ sl * (D / B ^ sl)) := by rw [pow_add]; ring
+      _ ≤ (q + 1) * B ^ sl * D := h4
+
+theorem tS_hi_le (n sl sh D Q : Nat) (hn : n = sl + sh) (hsl : 1 ≤ sl) (hQ : Q < B ^ sh) :
+    B ^ (n - 1) * tS D Q sh ≤ Q * B ^ sl * D := by
+  have hB := B_pos
+  have hb := (tS_bounds sh D Q hQ).1
+  have e3 : B ^ (n - 1) * B = B ^ sl * B ^ sh := by
+    rw [← pow_succ, ← pow_add]; congr 1; omega
+  have h2 : B ^ sl * (B ^ sh * tS D Q sh) ≤ B ^ sl * (B * (Q * D)) := Nat.mul_le_mul_left _ hb
+  have h3 : B * (B ^ (n - 1) * tS D Q sh) ≤ B * (Q * B ^ sl * D) := by
+    calc B * (B ^ (n - 1) * tS D Q sh) = B ^ sl * (B ^ sh * tS D Q sh) := by
+          rw [← Nat.mul_assoc, Nat.mul_comm B, e3]; ring
+      _ ≤ B ^ sl * (B * (Q * D)) := h2
+      _ = B * (Q * B ^ sl * D) := by ring
+  exact Nat.le_of_mul_le_mul_left h3 hB
+
+/-- dc_divappr_q.c:131-145 -/
+theorem loPart_spec (C n dn W D sl sh X cyf Qh' : Nat) (recur : Nat → Nat → Nat → Nat → Res)
+    (hrec : RecOK C n dn D recur) (hdn : dn = n + 1) (hn : n = sl + sh) (hsh : 1 ≤ sh) (hsl : 2 ≤ sl)
+    (hD : D < B ^ (n + 1)) (hnorm : B ^ (n + 1) ≤ 2 * D) (hsz : 2 * (n + 2) ≤ B)
+    (hX : X < B ^ (sl + 2)) (hcy : cyf ≤ 1) (hQh' : Qh' < B ^ sh)
+    (hXX : W / B ^ (n - 1) = tS D Qh' sh + X + B ^ (sl + 2) * cyf) (hfl : W < (Qh' + 1) * B ^ sl * D) :
+    (loPart C sbLeaf recur n dn W D sl sh X cyf).2.2.1 = true ∧ (loPart C sbLeaf recur n dn W D sl sh X cyf).2.2.2 ≤ 1 ∧
+    (loPart C sbLeaf recur n dn W D sl sh X cyf).1 < B ^ sl ∧
+    W < (Qh' * B ^ sl + (loPart C sbLeaf recur n dn W D sl sh X cyf).1 + 1) * D ∧
+    W / B ^ (n - 1) = tS D (Qh' * B ^ sl + (loPart C sbLeaf recur n dn W D sl sh X cyf).1) n
+      + (loPart C sbLeaf recur n dn W D sl sh X cyf).2.1 := by
+  have hB := B_pos
+  have hPs := Bpow_pos sl
+  have hPh := Bpow_pos sh
+  have hDk : D / B ^ sh < B ^ (sl + 1) := by
+    rw [Nat.div_lt_iff_lt_mul hPh, ← pow_add]
+    have : sl + 1 + sh = n + 1 := by omega
+    rw [this]; exact hD
+  have hnn : sh + sl = n := by omega
+  have hsplit : ∀ Ql, Ql < B ^ sl → tS D (Qh' * B ^ sl + Ql) n = tS D Qh' sh + tS (D / B ^ sh) Ql sl := by
+    intro Ql hQl
+    rw [← hnn]; exact tS_split sl sh D Qh' Ql hQh' hQl
+  unfold loPart
+  by_cases hc : cyf ≠ 0 ∨ X / B ≥ D / B ^ sh
+  · rw [if_pos hc]
+    simp only []
+    have hQl : B ^ sl - 1 < B ^ sl := by omega
+    -- t3 ≥ B·Dk
+    have eP : B ^ (sl + 2) = B * B ^ (sl + 1) := by rw [← pow_succ']
+    have hge : B * (D / B ^ sh) ≤ X + B ^ (sl + 2) * cyf := by
+      rcases hc with h | h
+      · have : B ^ (sl + 2) * 1 ≤ B ^ (sl + 2) * cyf := Nat.mul_le_mul_left _ (by omega)
+        have : B * (D / B ^ sh) ≤ B * B ^ (sl + 1) := Nat.mul_le_mul_left _ hDk.le
+        omega
+      · have h1 := Nat.div_add_mod X B
+        have : B * (D / B ^ sh) ≤ B * (X / B) := Nat.mul_le_mul_left _ h
+        omega
+    obtain ⟨j, hj⟩ : ∃ j, sl = j + 1 := ⟨sl - 1, by omega⟩
+    have hsat := tS_sat j (D / B ^ sh)
+    rw [← hj] at hsat
+    have hj' : j = sl - 1 := by omega
+    rw [hj'] at hsat
+    obtain ⟨F, hF⟩ : ∃ F, F = D / B ^ sh / B ^ (sl - 1) := ⟨_, rfl⟩
+    rw [← hF] at hsat
+    obtain ⟨t4, ht4⟩ : ∃ t4, X + B ^ (sl + 2) * cyf + F + sumd (D / B ^ sh) (sl - 1)
+        = B * (D / B ^ sh) + t4 :=
+      ⟨X + B ^ (sl + 2) * cyf + F + sumd (D / B ^ sh) (sl - 1) - B * (D / B ^ sh),
+        (Nat.add_sub_of_le (le_trans hge (Nat.le_trans (Nat.le_add_right _ _) (Nat.le_add_right _ _)))).symm⟩
+    have hXXt : W / B ^ (n - 1) = tS D (Qh' * B ^ sl + (B ^ sl - 1)) n + t4 := by
+      rw [hsplit _ hQl]; omega
+    -- t4 is small
+    have ht4lt : t4 < B * B + (n - 1 + 2) * B := by
+      have hQ : Qh' * B ^ sl + (B ^ sl - 1) < B ^ n := by
+        rw [← hnn, pow_add]
+        have : (Qh' + 1) * B ^ sl ≤ B ^ sh * B ^ sl := Nat.mul_le_mul_right _ hQh'
+        have e : (Qh' + 1) * B ^ sl = Qh' * B ^ sl + B ^ sl := by ring
+        omega
+      have hbnd := (tS_bounds n D _ hQ).2
+      have en : n = (n - 1) + 1 := by omega
+      have e1 : B ^ n = B * B ^ (n - 1) := by rw [← pow_succ']; congr 1
+      have e2 : B ^ (n + 1) = B * B * B ^ (n - 1) := by
+        rw [show n + 1 = 1 + 1 + (n - 1) by omega, pow_add, pow_add, pow_one]
+      rw [e1] at hQ hbnd
+      rw [e2] at hbnd hD
+      have hbnd' : B * ((Qh' * B ^ sl + (B ^ sl - 1)) * D)
+          ≤ B * B ^ (n - 1) * tS D (Qh' * B ^ sl + (B ^ sl - 1)) n + (n - 1 + 1) * (B * B * B ^ (n - 1)) := by
+        rw [← en]; exact hbnd
+      have hfl' : W < (Qh' * B ^ sl + (B ^ sl - 1) + 1) * (D + 1) := by
+        have e : Qh' * B ^ sl + (B ^ sl - 1) + 1 = (Qh' + 1) * B ^ sl := by
+          have : (Qh' + 1) * B ^ sl = Qh' * B ^ sl + B ^ sl := by ring
+          omega
+        rw [e]
+        have : (Qh' + 1) * B ^ sl * D ≤ (Qh' + 1) * B ^ sl * (D + 1) := Nat.mul_le_mul_left _ (by omega)
+        omega
+      exact r3_bound (n - 1) _ _ D _ t4 W hQ hD hXXt hbnd' (Nat.mul_div_le _ _) hfl'
+    have ht4B3 : t4 < B ^ 3 := by
+      rw [B3']
+      have h1 : (n - 1 + 2) * B ≤ B * B := Nat.mul_le_mul_right _ (by omega)
+      have h2 : B * B * 2 ≤ B * B * B := Nat.mul_le_mul_left _ (by rw [B_eq]; omega)
+      omega
+    have hu : cyf * B ^ (sl - 1) * B ^ 3 = B ^ (sl + 2) * cyf := by
+      rw [Nat.mul_assoc, ← pow_add]
+      have : sl - 1 + 3 = sl + 2 := by omega
+      rw [this]; ring
+    have hXB : X / B < B ^ (sl + 1) := by
+      rw [Nat.div_lt_iff_lt_mul hB, ← pow_succ]; exact hX
+    obtain ⟨s1, _⟩ := sat_eq sl X (D / B ^ sh) (cyf * B ^ (sl - 1)) t4 (by omega) hDk hXB (by rw [hu, ← hF]; omega) ht4B3
+    rw [s1]
+    refine ⟨trivial, Nat.zero_le _, hQl, ?_, hXXt⟩
+    have e : Qh' * B ^ sl + (B ^ sl - 1) + 1 = (Qh' + 1) * B ^ sl := by
+      have : (Qh' + 1) * B ^ sl = Qh' * B ^ sl + B ^ sl := by ring
+      omega
+    rw [e]; exact hfl
+  · rw [if_neg hc]
+    simp only []
+    have hcy0 : cyf = 0 := by
+      by_contra h; exact hc (Or.inl h)
+    have hXlt : X / B < D / B ^ sh := by
+      by_contra h; exact hc (Or.inr (by omega))
+    subst hcy0
+    rw [Nat.mul_zero, Nat.add_zero] at hXX
+    have hlow := Nat.mod_lt W (Bpow_pos (n - 1))
+    have hNl : W % B ^ (n - 1) + B ^ (n - 1) * X < B ^ (dn + sl) := by
+      have e : B ^ (dn + sl) = B ^ (n - 1) * B ^ (sl + 2) := by rw [← pow_add]; congr 1; omega
+      rw [e]
+      have : B ^ (n - 1) * (X + 1) ≤ B ^ (n - 1) * B ^ (sl + 2) := Nat.mul_le_mul_left _ hX
+      nlinarith
+    have es : dn - (sl + 1) = sh := by omega
+    have eNl : (W % B ^ (n - 1) + B ^ (n - 1) * X) / B ^ (n - 1) = X := by
+      have : W % B ^ (n - 1) + B ^ (n - 1) * X = X * B ^ (n - 1) + W % B ^ (n - 1) := by ring
+      rw [this, div_of_split _ _ _ hlow]
+    have e1 : (W % B ^ (n - 1) + B ^ (n - 1) * X) / B ^ sh / B ^ sl = X / B := by
+      rw [div_pow_add, show sh + sl = (n - 1) + 1 by omega, ← div_pow_succ', eNl]
+    have e2 : (W % B ^ (n - 1) + B ^ (n - 1) * X) / B ^ sh / B ^ (sl - 1) = X := by
+      rw [div_pow_add, show sh + (sl - 1) = n - 1 by omega, eNl]
+    obtain ⟨c1, c2, c3, c4, c5⟩ := sub_spec C n dn D sl (W % B ^ (n - 1) + B ^ (n - 1) * X) recur hrec hdn (by omega)
+      (by omega) (by rw [hdn]; exact hD) (by rw [hdn]; exact hnorm) (by omega) hNl (by rw [es, e1]; exact hXlt)
+    rw [es] at c4 c5
+    rw [e2] at c5
+    generalize (if sl < C then sbLeaf (dn + sl) dn (W % B ^ (n - 1) + B ^ (n - 1) * X) D
+      else recur (dn + sl) dn (W % B ^ (n - 1) + B ^ (n - 1) * X) D) = r at *
+    refine ⟨c1, c3, c2, ?_, ?_⟩
+    · have h1 := tS_hi_le n sl sh D Qh' hn (by omega) hQh'
+      have h2 := lt_mul_div_succ' (W % B ^ (n - 1) + B ^ (n - 1) * X) (B ^ sh) hPh
+      have h3 : B ^ sh * (D / B ^ sh) ≤ D := Nat.mul_div_le _ _
+      have h4 : B ^ sh * ((W % B ^ (n - 1) + B ^ (n - 1) * X) / B ^ sh + 1) ≤ B ^ sh * ((r.q + 1) * (D / B ^ sh)) :=
+        Nat.mul_le_mul_left _ c4
+      have h5 : (r.q + 1) * (B ^ sh * (D / B ^ sh)) ≤ (r.q + 1) * D := Nat.mul_le_mul_left _ h3
+      have h6 : B ^ sh * ((r.q + 1) * (D / B ^ sh)) = (r.q + 1) * (B ^ sh * (D / B ^ sh)) := by ring
+      have hW := Nat.div_add_mod W (B ^ (n - 1))
+      rw [hXX] at hW
+      have h7 : B ^ (n - 1) * (tS D Qh' sh + X) = B ^ (n - 1) * tS D Qh' sh + B ^ (n - 1) * X := by ring
+      have h8 : (Qh' * B ^ sl + r.q + 1) * D = Qh' * B ^ sl * D + (r.q + 1) * D := by ring
+      omega
+    · rw [hsplit _ c2, hXX, c5]; ring
+
 end Mpir.DcDivappr
